@@ -549,6 +549,17 @@ def _from_attributes(p):
             kw["retain_names"] = _flag(p["rn"])
         via = p.get("via", "function")
         exps = [list(r) for r in p["rows"]]
+        # the forms the `names` argument may take; "string" / "omitted" denote q0..q(n-1) and are used only for those
+        form = p.get("names_form", "tuple")
+        standard = list(p["names"]) == list(range(len(p["names"])))
+        if form == "list":
+            names = list(names)
+        elif form == "string" and standard:
+            names = "q" if len(names) > 1 else "q0"      # a string names the single indeterminate itself ("q4" in the docstring)
+        elif form == "omitted" and standard:
+            names = None
+        elif form == "poly":
+            names = numpoly.symbols(" ".join(names)) if len(names) > 1 else numpoly.symbols(names[0] + ",")
         if via == "classmethod":
             return numpoly.ndpoly.from_attributes(exps, coefs, names, **kw)
         if via == "clean_attributes":
